@@ -5,7 +5,7 @@
    wake-up, then the protocol's buffer);  received os / accepted ls os = the bytes of all receives that returned /
    of all read events, read off the observations. *)
 From EN Require Import Lib.Bytes
-                       Frame.Framer Frame.ReadUntil Stream.Consumer Stream.SpecDecode Stream.Endpoint Stream.EndpointSpec
+                       Frame.Framer Frame.ReadUntil Frame.BufReadUntil Stream.Consumer Stream.SpecDecode Stream.Endpoint Stream.EndpointSpec
                        Conc.SockReader Conc.SockReaderSpec Conc.BlockRecv Conc.SockEndpoint Conc.SockFlow
                        Proofs.C10_refute Proofs.C10_inv Proofs.C10_obs Proofs.C10_queue Proofs.C10_blocking
                        Proofs.C10_endpoint Proofs.C10_endpoint_inst Proofs.C10_reexport Proofs.C10_flow.
@@ -144,8 +144,7 @@ Proof. exact buf_reexport. Qed.
 Print Assumptions buffered_consumer_reexport.
 
 (* hence the endpoint corollary for the buffer-filling receiver over ANY buffered framer whose consumer satisfies the
-   C03 interface with drained states that have nothing pending and no exported view (C03's bru_D is of that form;
-   the closed read_until instance is one `exact` away once Proofs/C03_bufreaduntil.v builds again, see the notes) *)
+   C03 interface with drained states that have nothing pending and no exported view (C03's bru_D is of that form: closed instance below) *)
 Theorem recv_packet_no_loss_buffered :
   forall P (F : bframer P) sizehint (spec : bytes -> list (nres P)) (G : bytes -> Prop)
          (R : bcstate F -> bytes -> nat -> Prop) (D : bcstate F -> bytes -> Prop),
@@ -160,6 +159,19 @@ Theorem recv_packet_no_loss_buffered :
                     (tail <> [] -> lost_exc (sk es) <> None)).
 Proof. exact recv_packet_no_loss_buffered_proof. Qed.
 Print Assumptions recv_packet_no_loss_buffered.
+
+(* closed instance: _BufferedReceiverImpl / _BufferedRequestReceiver x BufferedStreamDataConsumer x _buffered_readuntil,
+   every stream whose frames stay within the generator's own limit (payload + separator <= limit - 1) *)
+Theorem recv_packet_no_loss_buffered_read_until :
+  forall (P : Type) (sep : bytes) (limit : nat) (keep_end : bool) (dec : decoder P) (sizehint : nat),
+    sep <> [] -> length sep + 1 <= limit ->
+    forall (latching : bool) ls,
+      let F := bru_framer sep limit keep_end dec in
+      let es := erun (buf_smachine F sizehint) true latching (einit (bcinit F)) ls in
+      safe sep (limit - 1 - length sep) (delivered (sk es)) ->
+      exists rest, fst (spec_events sep keep_end dec (delivered (sk es))) = events es ++ rest.
+Proof. exact recv_packet_no_loss_buffered_read_until_proof. Qed.
+Print Assumptions recv_packet_no_loss_buffered_read_until.
 
 (* non-vacuity: a recv_packet cancelled in the iteration of its read event, then the packet comes out *)
 Example endpoint_cancel_example :
